@@ -25,7 +25,7 @@ def fillIds (st : FillState r) : List SlabID :=
   st.slabs.flatMap dataIds ++ (st.id :: extIds st.elements.elems)
 
 /-- created large-value slabs of owner `a` have indices the allocator handed out -/
-def CreatedOk (a : Nat) (c : Ctx) : Prop := ∀ p ∈ c.created, p.1.addr = a → p.1.idx ≤ c.ctr
+def CreatedTableOk (a : Nat) (c : Ctx) : Prop := ∀ p ∈ c.created, p.1.addr = a → p.1.idx ≤ c.ctr
 
 /-- `e` is what the bulk build stores next to key `k` for the input value `v`: `v` itself when it
     fits the inline limit for this key, otherwise the 19-byte reference to a large-value slab that
@@ -37,10 +37,13 @@ def Represents (T : Nat) (created : List (SlabID × Elem)) (k : MKey) (v e : Ele
 
 /-- identifier part of the loop invariant (after the pairs `proc`, in context `c`, for a call that
     started with the allocation counter at `c0`) -/
-structure MFillIds (cfg : MCfg) (c0 : Nat) (st : FillState r) (proc : List (MKey × Elem)) (c : Ctx) : Prop where
+structure MFillIds (cfg : MCfg) (c0 : Nat) (P : Prop) (st : FillState r) (proc : List (MKey × Elem)) (c : Ctx) :
+    Prop where
   ids : FreshIds cfg.addr c0 c.ctr (fillIds st ++ OMap.refsOf (fillPairs st))
-  created : CreatedOk cfg.addr c
-  repr : ∀ p ∈ fillPairs st, ∃ v, (p.1, v) ∈ proc ∧ Represents cfg.T c.created p.1 v p.2
+  /-- `P` = "the created-slab table of the context the call started from was sound" (`CreatedTableOk`);
+      the identifier clause above does not depend on it -/
+  created : P → CreatedTableOk cfg.addr c
+  repr : P → ∀ p ∈ fillPairs st, ∃ v, (p.1, v) ∈ proc ∧ Represents cfg.T c.created p.1 v p.2
 
 /-! ### small facts -/
 
@@ -104,14 +107,14 @@ theorem nse_ctx (T a : Nat) (k : MKey) {v : Elem} (hv : ValueOkM v) (c : Ctx) :
 
 /-- Common part of both kinds of loop step: the new state holds one more pair — the stored form of
     `(k, v)` — and either no new tree identifier or the next one after the value was stored. -/
-theorem mfillIds_step {cfg : MCfg} {c0 : Nat} {st st' : FillState r} {proc : List (MKey × Elem)} {c c' : Ctx}
-    (h : MFillIds cfg c0 st proc c) (k : MKey) {v : Elem} (hv : ValueOkM v)
+theorem mfillIds_step {cfg : MCfg} {c0 : Nat} {P : Prop} {st st' : FillState r} {proc : List (MKey × Elem)}
+    {c c' : Ctx} (h : MFillIds cfg c0 P st proc c) (k : MKey) {v : Elem} (hv : ValueOkM v)
     (hpairs : (fillPairs st').Perm (fillPairs st ++ [(k, storedValue cfg k v c)]))
     (hcr : c'.created = (newSingleElement cfg.T cfg.addr k v c).2.created)
     (hids : ((fillIds st').Perm (fillIds st) ∧ c'.ctr = (newSingleElement cfg.T cfg.addr k v c).2.ctr) ∨
       ((fillIds st').Perm (⟨cfg.addr, (newSingleElement cfg.T cfg.addr k v c).2.ctr + 1⟩ :: fillIds st) ∧
         c'.ctr = (newSingleElement cfg.T cfg.addr k v c).2.ctr + 1)) :
-    MFillIds cfg c0 st' (proc ++ [(k, v)]) c' := by
+    MFillIds cfg c0 P st' (proc ++ [(k, v)]) c' := by
   have hrp := refsOf_perm hpairs
   rw [refsOf_append] at hrp
   rcases nse_ctx cfg.T cfg.addr k hv c with ⟨hsmall, hn, hsv⟩ | ⟨hbig, hnctr, hncr, hsv⟩
@@ -132,13 +135,13 @@ theorem mfillIds_step {cfg : MCfg} {c0 : Nat} {st st' : FillState r} {proc : Lis
         refine this.perm ?_
         have h2 := List.Perm.append hp hrp
         simpa using h2
-    · intro p hp ha
+    · intro hP p hp ha
       rw [hcr] at hp
-      have := h.created p hp ha
+      have := h.created hP p hp ha
       rcases hids with ⟨_, hctr⟩ | ⟨_, hctr⟩ <;> omega
-    · intro p hp
+    · intro hP p hp
       rcases List.mem_append.mp (hpairs.mem_iff.mp hp) with hp | hp
-      · obtain ⟨v0, hv0, hr⟩ := h.repr p hp
+      · obtain ⟨v0, hv0, hr⟩ := h.repr hP p hp
         exact ⟨v0, List.mem_append.mpr (Or.inl hv0), by rw [hcr]; exact hr⟩
       · simp only [List.mem_singleton] at hp
         subst hp
@@ -152,9 +155,9 @@ theorem mfillIds_step {cfg : MCfg} {c0 : Nat} {st st' : FillState r} {proc : Lis
         [⟨cfg.addr, c.ctr + 1⟩] := by
       simp [OMap.refsOf, OMap.refOf]
     rw [href] at hrp
-    have hfresh : ∀ p ∈ c.created, p.1 ≠ (⟨cfg.addr, c.ctr + 1⟩ : SlabID) := by
-      intro p hp he
-      have := h.created p hp (by rw [he])
+    have hfresh : P → ∀ p ∈ c.created, p.1 ≠ (⟨cfg.addr, c.ctr + 1⟩ : SlabID) := by
+      intro hP p hp he
+      have := h.created hP p hp (by rw [he])
       rw [he] at this
       simp only at this
       omega
@@ -175,17 +178,17 @@ theorem mfillIds_step {cfg : MCfg} {c0 : Nat} {st st' : FillState r} {proc : Lis
         refine List.Perm.cons _ ?_
         rw [← List.append_assoc]
         exact (List.perm_append_singleton _ _)
-    · intro p hp ha
+    · intro hP p hp ha
       rw [hcr] at hp
       rcases List.mem_append.mp hp with hp | hp
-      · have := h.created p hp ha
+      · have := h.created hP p hp ha
         rcases hids with ⟨_, hctr⟩ | ⟨_, hctr⟩ <;> omega
       · simp only [List.mem_singleton] at hp
         subst hp
         rcases hids with ⟨_, hctr⟩ | ⟨_, hctr⟩ <;> simp <;> omega
-    · intro p hp
+    · intro hP p hp
       rcases List.mem_append.mp (hpairs.mem_iff.mp hp) with hp | hp
-      · obtain ⟨v0, hv0, hr⟩ := h.repr p hp
+      · obtain ⟨v0, hv0, hr⟩ := h.repr hP p hp
         refine ⟨v0, List.mem_append.mpr (Or.inl hv0), ?_⟩
         rw [hcr]
         rcases hr with hr | ⟨hb, id, he, hf⟩
@@ -195,7 +198,7 @@ theorem mfillIds_step {cfg : MCfg} {c0 : Nat} {st st' : FillState r} {proc : Lis
         subst hp
         refine ⟨v, by simp, Or.inr ⟨hbig, _, rfl, ?_⟩⟩
         rw [hcr]
-        exact find?_append_new _ _ _ hfresh
+        exact find?_append_new _ _ _ (hfresh hP)
 
 /-! ### "no collision": `appendNew` -/
 
@@ -214,9 +217,9 @@ theorem appendNew_ids (cfg : MCfg) (st : FillState r) (hkey : Nat) (k : MKey) (v
   · refine ⟨rfl, Or.inl ⟨?_, rfl⟩⟩
     simp [fillIds, extIds, List.filterMap_append]
 
-theorem appendNew_fillIds {cfg : MCfg} {c0 : Nat} {st : FillState r} {proc : List (MKey × Elem)} {c : Ctx}
-    (h : MFillIds cfg c0 st proc c) (hkey : Nat) (k : MKey) {v : Elem} (hv : ValueOkM v) :
-    MFillIds cfg c0 (appendNew cfg st hkey k v c).1 (proc ++ [(k, v)]) (appendNew cfg st hkey k v c).2 := by
+theorem appendNew_fillIds {cfg : MCfg} {c0 : Nat} {P : Prop} {st : FillState r} {proc : List (MKey × Elem)}
+    {c : Ctx} (h : MFillIds cfg c0 P st proc c) (hkey : Nat) (k : MKey) {v : Elem} (hv : ValueOkM v) :
+    MFillIds cfg c0 P (appendNew cfg st hkey k v c).1 (proc ++ [(k, v)]) (appendNew cfg st hkey k v c).2 := by
   obtain ⟨hcr, hids⟩ := appendNew_ids cfg st hkey k v c
   refine mfillIds_step h k hv (by rw [appendNew_pairs]) hcr ?_
   rcases hids with ⟨h1, h2⟩ | ⟨h1, h2⟩
@@ -226,11 +229,11 @@ theorem appendNew_fillIds {cfg : MCfg} {c0 : Nat} {st : FillState r} {proc : Lis
 /-! ### "found collision": `collide` -/
 
 theorem collide_fillIds (hT : legalThreshold T = true) {cfg : MCfg} (hc : CfgFor cfg T (r + 1)) {c0 : Nat}
-    {st : FillState r} {proc : List (MKey × Elem)} (h : MFillOk T r D cfg st proc) {c : Ctx}
-    (hI : MFillIds cfg c0 st proc c) (k : MKey) (v : Elem) (hkk : KeyOk T (r + 1) D k) (hv : ValueOkM v)
+    {P : Prop} {st : FillState r} {proc : List (MKey × Elem)} (h : MFillOk T r D cfg st proc) {c : Ctx}
+    (hI : MFillIds cfg c0 P st proc c) (k : MKey) (v : Elem) (hkk : KeyOk T (r + 1) D k) (hv : ValueOkM v)
     (hcnt : 0 < st.count) (hd : k.dig 0 = st.prevHkey) {st' : FillState r} {c' : Ctx}
     (hcol : collide cfg st k v c = .ok (st', c')) :
-    MFillIds cfg c0 st' (proc ++ [(k, v)]) c' := by
+    MFillIds cfg c0 P st' (proc ++ [(k, v)]) c' := by
   have S := MElems.opsSpec D hT hc r
   have hl := h.last_key hcnt
   have hl' := hl
@@ -308,11 +311,11 @@ theorem collide_fillIds (hT : legalThreshold T = true) {cfg : MCfg} (hc : CfgFor
 
 /-! ### the loop -/
 
-theorem mfill_ids (hT : legalThreshold T = true) {cfg : MCfg} (hc : CfgFor cfg T (r + 1)) (c0 : Nat)
+theorem mfill_ids (hT : legalThreshold T = true) {cfg : MCfg} (hc : CfgFor cfg T (r + 1)) (c0 : Nat) (P : Prop)
     (kvs : List (MKey × Elem)) (hkv : ∀ p ∈ kvs, KeyOk T (r + 1) D p.1 ∧ ValueOkM p.2) :
     ∀ (proc : List (MKey × Elem)) (st : FillState r) (c : Ctx), MFillOk T r D cfg st proc →
-      MFillIds cfg c0 st proc c →
-      ∀ st' c', fillLoop cfg kvs st c = .ok (st', c') → MFillIds cfg c0 st' (proc ++ kvs) c' := by
+      MFillIds cfg c0 P st proc c →
+      ∀ st' c', fillLoop cfg kvs st c = .ok (st', c') → MFillIds cfg c0 P st' (proc ++ kvs) c' := by
   induction kvs with
   | nil =>
     intro proc st c _ hI st' c' heq
@@ -355,19 +358,19 @@ theorem mfill_ids (hT : legalThreshold T = true) {cfg : MCfg} (hc : CfgFor cfg T
 def fillInit (r : Nat) (id : SlabID) : FillState r :=
   { id := id, elements := emptyElems r, slabs := [], count := 0, prevHkey := 0 }
 
-theorem mfillIds_init (cfg : MCfg) (c : Ctx) (hcr : CreatedOk cfg.addr c) :
-    MFillIds cfg c.ctr (fillInit r (c.alloc cfg.addr).1) [] (c.alloc cfg.addr).2 := by
+theorem mfillIds_init (cfg : MCfg) (c : Ctx) (P : Prop) (hcr : P → CreatedTableOk cfg.addr c) :
+    MFillIds cfg c.ctr P (fillInit r (c.alloc cfg.addr).1) [] (c.alloc cfg.addr).2 := by
   refine ⟨?_, ?_, ?_⟩
   · have : fillIds (fillInit r (c.alloc cfg.addr).1) ++ OMap.refsOf (fillPairs (fillInit r (c.alloc cfg.addr).1)) =
         [⟨cfg.addr, c.ctr + 1⟩] := by
       simp [fillInit, fillIds, fillPairs, emptyElems, extIds, HkeyElems.toList, OMap.refsOf, Ctx.alloc]
     rw [this]
     exact FreshIds.single_next cfg.addr c.ctr
-  · intro p hp ha
-    have := hcr p hp ha
+  · intro hP p hp ha
+    have := hcr hP p hp ha
     show p.1.idx ≤ c.ctr + 1
     omega
-  · intro p hp
+  · intro _ p hp
     simp [fillInit, fillPairs, emptyElems, HkeyElems.toList] at hp
 
 end Atree
